@@ -4,10 +4,12 @@
 set -e
 ID="$1"; WT="$2"; shift 2
 V="/tmp/seedv-$ID-$$"
-rsync -a --exclude .git --exclude .replay --exclude '.work/C*' /verif/ "$V/"
-rm -f "$V/.work/build.lock" "$V/.work/coq.lock"
+rsync -a --exclude .git --exclude .replay --exclude .work /verif/ "$V/" || [ $? -eq 24 ]   # 24: files vanished while copying (other runs)
+mkdir -p "$V/.work"
 set +e
-VERIF_REPO="$WT" "$V/check" "$ID" "$@"
+# build only this property's driver: other drivers may depend on hook files newer than the worktree
+TAG=$(echo "$ID" | tr A-Z a-z)
+VERIF_REPO="$WT" "$V/check" "$ID" --tags "verif $TAG" "$@"
 rc=$?
 mkdir -p /verif/.replay/seeded
 cp -r "$V/.replay/." /verif/.replay/seeded/ 2>/dev/null
